@@ -16,9 +16,10 @@ PLAN = {
         ],
     },
     "C02": {
-        "packages": ["vnative"],
+        "packages": ["vnative", "vsim"],
         "engines": [
             {"name": "n-hist", "argv": [VNATIVE, "hist", "--property", "C02"]},
+            {"name": "s2", "argv": [VSIM, "s2", "--property", "C02", "--variants", "arm64,arm,amd64"]},
         ],
     },
     "C03": {
@@ -53,9 +54,10 @@ PLAN = {
         ],
     },
     "C11": {
-        "packages": ["vnative"],
+        "packages": ["vnative", "vsim"],
         "engines": [
             {"name": "n-layout", "argv": [VNATIVE, "layout", "--property", "C11"]},
+            {"name": "s2", "argv": [VSIM, "s2", "--property", "C11", "--variants", "arm64,arm64,amd64"]},
         ],
     },
     "C08": {
@@ -101,9 +103,10 @@ PLAN = {
         ],
     },
     "C17": {
-        "packages": ["vnative"],
+        "packages": ["vnative", "vsim"],
         "engines": [
             {"name": "n-hist-flush", "argv": [VNATIVE, "hist", "--property", "C17"]},
+            {"name": "s2", "argv": [VSIM, "s2", "--property", "C17", "--variants", "arm64,arm"]},
         ],
     },
     "C15": {
